@@ -20,6 +20,20 @@ Definition nl_to_space (d : list byte) : list byte := map (fun c => if c =? 10 t
 Definition fasta_format (desc data : list byte) : list byte :=
   [62] ++ nl_to_space desc ++ [10] ++ wrap_force (length data) data 70 ++ [10].
 
+(* GenBankFields.String (seqio/genbank.go), the FASTA description of a GenBank
+   record: "%s:%d-%d %s" (version, head+1, tail, definition) when the record
+   is a slice (Region is a gts.Segment), "%s %s" otherwise *)
+Definition gb_desc (version : list byte) (region : option (Z * Z)) (definition : list byte) : list byte :=
+  match region with
+  | Some (h, t) => version ++ [58] ++ itoa (h + 1) ++ [45] ++ itoa t ++ [32] ++ definition
+  | None => version ++ [32] ++ definition
+  end.
+
+(* FastaWriter.WriteSeq on a sequence whose metadata is a fmt.Stringer:
+   Fasta{info.String(), v.Bytes()}.WriteTo *)
+Definition gb_to_fasta (version : list byte) (region : option (Z * Z)) (definition data : list byte) : list byte :=
+  fasta_format (gb_desc version region definition) data.
+
 (* bytes.Split(body, "\n") / TrimSuffix(line, "\r") / bytes.Join(lines, nil) *)
 Fixpoint split_nl (l : list byte) (cur : list byte) : list (list byte) :=
   match l with
